@@ -162,6 +162,11 @@ impl CovComputer {
         });
     }
 
+    #[cfg(kmertools_verif)]
+    pub fn verif_vectorise_one(&self, seq: &[u8], counts: &HashMap<u64, u32>) -> Vec<f64> {
+        self.vectorise_one(seq, counts)
+    }
+
     fn vectorise_one(&self, seq: &[u8], counts: &HashMap<u64, u32>) -> Vec<f64> {
         let mut vec = vec![0_f64; self.bin_count];
         let mut total = 0_f64;
